@@ -185,9 +185,11 @@ func genC19(t *rapid.T) *C19Case {
 // ---- (d) valid programs compile identically under two layouts ----
 
 type C19ProgCase struct {
-	File  *File    `json:"file"`
-	GapsA []string `json:"gaps_a"`
-	GapsB []string `json:"gaps_b"`
+	File     *File             `json:"file"`
+	GapsA    []string          `json:"gaps_a"`
+	GapsB    []string          `json:"gaps_b"`
+	Auto     AutoCfg           `json:"auto,omitempty"`
+	Switches map[string]string `json:"switches,omitempty"`
 }
 
 func c19ProgSrc(c *C19ProgCase) string {
@@ -203,7 +205,7 @@ func checkC19Prog(c *C19ProgCase) *Violation {
 	canon := pr.Layout(CanonGap(pr.Toks)).Src
 	srcA := pr.Layout(FixedGaps(c.GapsA)).Src
 	srcB := pr.Layout(FixedGaps(c.GapsB)).Src
-	o := Opts{Optimize: true, FontPath: "@repo"}
+	o := Opts{Optimize: true, FontPath: "@repo", Auto: c.Auto, Switches: c.Switches}
 	r0 := Compile(canon, o)
 	for i, s := range []string{srcA, srcB} {
 		r := Compile(s, o)
@@ -227,6 +229,11 @@ func checkC19Prog(c *C19ProgCase) *Violation {
 }
 
 func genC19Prog(t *rapid.T) *C19ProgCase {
+	if rapid.IntRange(0, 2).Draw(t, "kitchen") == 0 {
+		k := genKitchenCase(t, 0, 3)
+		n := len(PrintFile(k.File).Toks)
+		return &C19ProgCase{File: k.File, Auto: k.Auto, Switches: k.Switches, GapsA: drawGaps(t, n, true), GapsB: drawGaps(t, n, true)}
+	}
 	cfg := DefaultFileCfg()
 	cfg.MaxTops = 4
 	f := GenFile(t, cfg)
